@@ -10,7 +10,7 @@ LEVEL_TEXT = ("Bounded verification by symbolic execution of the real CircularRe
               "is a CircularRecord of the caller's class with the reverse-complement sequence, that applying it twice restores "
               "sequence and feature denotations, that each part is mapped to the mirrored position on the opposite strand, and "
               "that reverse complement commutes with rotation.  Bounded claim.")
-LEVEL_NOTE = ("Bounds: n<=10 quick / n<=16 thorough; 1-2 features of 1-2 parts. The coordinate flip itself is Biopython's "
+LEVEL_NOTE = ("Bounds: n<=14 quick / n<=24 thorough; 1-2 features of 1-2 parts. The coordinate flip itself is Biopython's "
               "(modelled statement by statement, validated differentially); the repository-side content is argument "
               "pass-through, re-wrapping and the interaction with >>. Trusted: z3, CPython, symx models.")
 TECHNIQUE = "bounded symbolic execution of the real Python source (symx) with z3; replay on the real stack"
@@ -24,7 +24,7 @@ ASSUMPTIONS = [
 
 
 def bounds(tier):
-    return dict(n_max=tier_pick(tier, 10, 16), features_max=2, parts_max=2, k="unbounded integer")
+    return dict(n_max=tier_pick(tier, 14, 24), features_max=2, parts_max=2, k="unbounded integer")
 
 
 def _flip_strand(st):
@@ -103,7 +103,9 @@ def ob_commute(ctx):
     P = ctx.P
     n = P["n"]
     r, specs, rec = _make(ctx, n, P["shape"], P["strand"])
-    k = ctx.mk.int("k")
+    from .c13 import _rotation_amount
+
+    k = _rotation_amount(ctx, "k", n)  # unbounded integer; residue case-split above n = 10
     a = (rec >> k).reverse_complement()
     b = rec.reverse_complement() << k
     ctx.observe("a", a)
@@ -167,7 +169,7 @@ def ob_edit_between(ctx):
 
 def obligations(tier, seed):
     obs = []
-    nmax = tier_pick(tier, 10, 16)
+    nmax = tier_pick(tier, 14, 24)
     for n in range(1, nmax + 1):
         shapes = [(1,), (2,)]
         if n <= tier_pick(tier, 6, 10):
@@ -179,7 +181,7 @@ def obligations(tier, seed):
             name = "n=%d shape=%s strand=%s" % (n, "+".join(map(str, shape)), strand)
             c = n * sum(shape) ** 2 * len(shape) ** 2
             obs.append(Ob("rc " + name, ob_rc, dict(n=n, shape=shape, strand=strand), samples=5, cost=c))
-            if n <= tier_pick(tier, 8, 12) and sum(shape) <= 2:
+            if n <= tier_pick(tier, 14, 24) and sum(shape) <= 2:
                 obs.append(Ob("commute " + name, ob_commute, dict(n=n, shape=shape, strand=strand), samples=5, cost=3 * c))
     obs.append(Ob("subclass and argument pass-through", ob_subclass, {}, samples=2, cost=1))
     for n in ((3, 6) if tier == "quick" else (2, 3, 5, 8, 10)):
